@@ -369,7 +369,7 @@ def _cross_matrices(rng, n, px, py, cplx, sx_scale, sy_scale):
     Q = gen.orthonormal(n, px + py, rng, cplx, perp_ones=True)
     Ux, N = Q[:, :px], Q[:, px:]
     m = min(px, py)
-    rho = np.linspace(0.92, 0.25, m) * (1 + 0.03 * rng.standard_normal(m))
+    rho = np.clip(np.linspace(0.92, 0.25, m) * (1 + 0.03 * rng.standard_normal(m)), 0.05, 0.97)
     Uy = N.copy()
     Uy[:, :m] = Ux[:, :m] * rho + N[:, :m] * np.sqrt(1 - rho**2)
     sx = np.linspace(1.0, 0.3, px) * (1 + 0.03 * rng.standard_normal(px)) if px > 1 else np.ones(1)
@@ -511,15 +511,15 @@ def _vec(da):
     return np.asarray(da.values).reshape(-1)
 
 
-def _sign_tie(V):
+def _sign_tie(V, tol=1e-6):
     """xeofs orients every real mode so that its largest |entry| is positive; if the largest positive and the
     largest negative entry have (nearly) the same modulus the orientation is decided by round-off."""
     V = np.asarray(V)
-    if np.iscomplexobj(V):
+    if np.iscomplexobj(V) or V.ndim != 2:
         return False
     hi = V.max(axis=0)
     lo = -V.min(axis=0)
-    return bool(np.any(np.abs(hi - lo) <= 1e-6 * np.maximum(np.abs(hi), np.abs(lo))))
+    return bool(np.any(np.abs(hi - lo) <= max(tol, 1e-6) * np.maximum(np.abs(hi), np.abs(lo))))
 
 
 def _phases(Va, Vb):
@@ -658,7 +658,7 @@ def _run_single(case, obs):
         return
     obs.check("n_modes_returned", Va.shape[1] == k and Vb.shape[1] == k, f"{Va.shape[1]}/{Vb.shape[1]} modes, asked {k}")
     is_c = np.iscomplexobj(Va) or np.iscomplexobj(Vb)
-    if not is_c and (_sign_tie(Va) or _sign_tie(Vb)):
+    if not is_c and (_sign_tie(Va, 10 * tol_vec) or _sign_tie(Vb, 10 * tol_vec)):
         obs.ambiguous("sign convention tie (largest positive and negative loading equal in modulus)")
     if is_c:
         z = _phases(Va, Vb)
@@ -904,10 +904,6 @@ def _run_cross(case, obs):
         return
     obs.check("n_modes_returned", V1a.shape[1] == k and V1b.shape[1] == k, f"{V1a.shape[1]}/{V1b.shape[1]} modes, asked {k}")
     is_c = any(np.iscomplexobj(v) for v in (V1a, V1b, V2a, V2b))
-    if not is_c:
-        for m in (A, B):
-            if _sign_tie(np.asarray(m.data["components2"].values)):
-                obs.ambiguous("sign convention tie in the right singular vectors")
     # gauge of one mode: (u z, v z) with |z| = 1 (z = +-1 for real data, fixed by the sign convention).  A negative
     # product cx*cy turns the cross-covariance into its negative, so exactly one of the two vectors of a mode
     # changes sign (which one is the convention's business); the scores always follow their vector.
@@ -916,11 +912,24 @@ def _run_cross(case, obs):
         z1, z2 = _phases(V1a, V1b), _phases(V2a, V2b)
         obs.close("phase_pairing", z1 * np.conj(z2), np.full(k, want_pair, dtype=complex), 10 * tol_vec, scale=1.0, tags=dict(t, symptom="sign_pairing"))
         V1b, S1b, V2b, S2b = V1b / z1, S1b / z1, V2b / z2, S2b / z2
-    elif want_pair < 0:
+    else:
         sg1 = np.sign(np.einsum("ik,ik->k", V1a, V1b))
         sg2 = np.sign(np.einsum("ik,ik->k", V2a, V2b))
-        obs.check("exactly_one_vector_flips", bool(np.all(sg1 * sg2 == -1)), f"signs X {sg1}, Y {sg2}", tags=dict(t, symptom="sign_pairing"))
-        obs.note("flipped_side", "X" if np.all(sg1 == -1) else ("Y" if np.all(sg2 == -1) else "mixed"))
+        obs.check("sign_pairing", bool(np.all(sg1 * sg2 == want_pair)), f"signs X {sg1}, Y {sg2}, product must be {want_pair}", tags=dict(t, symptom="sign_pairing"))
+        # xeofs fixes the orientation on the right singular vectors *in the coordinates they are computed in* (PCA
+        # coordinates when use_pca): a tie there, or in the orientation of a PCA basis vector of Y (structural for a
+        # standardised 2-feature field: (1, +-1)/sqrt 2), leaves the joint sign of a mode to round-off
+        tie = False
+        for m in (A, B):
+            tie = tie or _sign_tie(np.asarray(m.data["components2"].values), 10 * tol_vec)
+            if case["use_pca"]:
+                tie = tie or _sign_tie(np.asarray(m.pca2.V.values), 10 * tol_vec)
+        if tie:
+            obs.cell("orientation:tie_joint_sign_not_asserted")
+        elif want_pair > 0:
+            obs.check("orientation_unchanged", bool(np.all(sg1 == 1) and np.all(sg2 == 1)), f"signs X {sg1}, Y {sg2}", tags=dict(t, symptom="mode_sign_flipped"))
+        else:
+            obs.note("flipped_side", "X" if np.all(sg1 == -1) else ("Y" if np.all(sg2 == -1) else "mixed"))
         V1b, V2b = V1b * sg1, V2b * sg2
         S1b, S2b = S1b * sg1, S2b * sg2
     obs.close("components_X_unchanged", V1b, V1a, tol_vec, scale=max(float(np.abs(V1a).max()), 1e-300), tags=dict(t, symptom="components_differ", field="X"))
